@@ -209,18 +209,10 @@ def r2(ctx, cfg):
     key = NH + "concat"
     f = ctx.need_fn(R, key)
     if f is not None:
-        ret_op = None
-        for bid, i, st in f.stmts():
-            if st["k"] == "assign" and st["dst"]["l"] == 0 and not st["dst"]["p"] and st["rv"]["k"] == "use":
-                ret_op = st["rv"]["op"]
-        l = q.local_of_operand(ret_op) if ret_op else None
-        vb = q.vec_build(P, f, l) if l is not None else None
-        ok = vb is not None
-        d = "unrecognised"
-        if ok:
-            init, muts = vb
-            d = "%s then %s" % (fmt(init), [(n, [fmt(x) for x in a]) for b, t, n, a in muts])
-            ok = is_param(init, "namespace") and len(muts) == 1 and muts[0][2] == "extend_from_slice" and is_param(muts[0][3][0], "key")
+        from vlib import pipeline
+        parts = pipeline.byte_parts(P, F, f, P.ret(f))
+        d = "unrecognised" if parts is None else " ++ ".join(fmt(x)[:40] for x in parts)
+        ok = parts is not None and len(parts) == 2 and is_param(parts[0], "namespace") and is_param(parts[1], "key")
         ctx.ob(R, key, "concat=namespace++key", ok, "concat builds %s" % d, fn=f, sample=d)
     # trait methods of both views
     for ty, methods in (("PrefixedStorage", ("get", "set", "remove", "range")), ("ReadonlyPrefixedStorage", ("get", "range"))):
@@ -293,11 +285,8 @@ def r3(ctx, cfg):
     for idx, pname in ((1, "start"), (2, "end")):
         # find the local holding the bound and its definitions with their guarding conditions
         l = _trace_local(P, f, ops[idx], rb)
-        defs = [d for d in P.defs(f).get(l, []) if not d[3]["dst"]["p"]] if l is not None else []
         cells = {"Some": [], "None": [], None: []}
-        for kind, db, di, x in defs:
-            val = P.rvalue(f, x["rv"], (db, di)) if kind == "assign" else P.call_origin(f, x, db)
-            conds = q.dominating_conditions(P, f, db)
+        for val, conds, dsite in (q.value_cases(P, f, l) if l is not None else []):
             tag = None
             others = []
             for e, c in conds:
@@ -419,19 +408,13 @@ def r4(ctx, cfg):
     key = LP + "to_length_prefixed"
     f = ctx.need_fn(R, key)
     if f is not None:
-        l = _ret_local(f)
-        vb = q.vec_build(P, f, l) if l is not None else None
-        ok = vb is not None
-        d = "unrecognised"
+        from vlib import pipeline
+        parts = pipeline.byte_parts(P, F, f, P.ret(f))
+        d = "unrecognised" if parts is None else " ++ ".join(fmt(x)[:50] for x in parts)
+        ok = parts is not None and len(parts) == 2 and is_param(parts[1], "namespace")
         if ok:
-            init, muts = vb
-            d = "%s then %s" % (fmt(init)[:60], [(n, [fmt(x)[:50] for x in a]) for b, t, n, a in muts])
-            i0 = peel(init)
-            ok = i0[0] == "call" and i0[1] in ("std::vec::Vec::with_capacity", "std::vec::Vec::new") and len(muts) == 2
-            if ok:
-                e0, e1 = peel(muts[0][3][0]), muts[1][3][0]
-                ok = muts[0][2] == "extend_from_slice" and muts[1][2] == "extend_from_slice" and \
-                    e0[0] == "call" and e0[1] == LP + "encode_length" and is_param(e0[2][0], "namespace") and is_param(e1, "namespace")
+            e0 = peel(parts[0])
+            ok = e0[0] == "call" and e0[1] == LP + "encode_length" and is_param(e0[2][0], "namespace")
         ctx.ob(R, key, "prefix=encode_length(ns)++ns", ok, "to_length_prefixed builds %s" % d, fn=f, sample=d[:200])
     key = LP + "to_length_prefixed_nested"
     f = ctx.need_fn(R, key)
